@@ -40,7 +40,7 @@ NAMES = ['a', 'ab', 'b', 'bc', 'c']
 
 def bounds(tier):
   return dict(linen_children=2 if tier == 'quick' else 3, linen_depth=2,
-              nnx_history_depth=4 if tier == 'quick' else 6)
+              nnx_history_depth=4 if tier == 'quick' else 5)
 
 
 # ----------------------------------------------------------------------- Linen
